@@ -283,6 +283,9 @@ type RunOpts struct {
 	ErrOnFail bool // ReturnErrOnFailedRuleEvaluation
 	Listeners []engine.GruleEngineListener
 	Ctx       context.Context
+	// OnEngine, when set, receives the engine value before the run starts (a fact method may run another
+	// knowledge base on it)
+	OnEngine func(*engine.GruleEngine)
 }
 
 // RunResult is the outcome of one Execute call.
@@ -297,6 +300,9 @@ func Execute(kb *ast.KnowledgeBase, dc ast.IDataContext, o RunOpts) (res RunResu
 	eng.MaxCycle = o.MaxCycle
 	eng.ReturnErrOnFailedRuleEvaluation = o.ErrOnFail
 	eng.Listeners = o.Listeners
+	if o.OnEngine != nil {
+		o.OnEngine(eng)
+	}
 	ctx := o.Ctx
 	defer func() {
 		if r := recover(); r != nil {
@@ -310,6 +316,20 @@ func Execute(kb *ast.KnowledgeBase, dc ast.IDataContext, o RunOpts) (res RunResu
 		res.Err = eng.ExecuteWithContext(ctx, dc, kb)
 	}
 	return res
+}
+
+// FetchRaw runs FetchMatchingRules inside a panic fence and returns the slice the engine returned.
+func FetchRaw(kb *ast.KnowledgeBase, dc ast.IDataContext, errOnFail bool) (rs []*ast.RuleEntry, err error, panicked interface{}) {
+	eng := engine.NewGruleEngine()
+	eng.ReturnErrOnFailedRuleEvaluation = errOnFail
+	defer func() {
+		if r := recover(); r != nil {
+			panicked = r
+			err = fmt.Errorf("panic escaped FetchMatchingRules: %v", r)
+		}
+	}()
+	rs, err = eng.FetchMatchingRules(dc, kb)
+	return rs, err, nil
 }
 
 // Fetch runs FetchMatchingRules inside a panic fence.
